@@ -149,6 +149,8 @@ def write_evidence(ctx: Ctx, wall: float, n_viol: int, explanation: str, assumpt
         "modules_parsed": sorted(ctx.repo.modules) if ctx.repo else [],
         "source_digest": ctx.repo.digest() if ctx.repo else "",
         "notes": ctx.notes,
+        "normalisation_applied": getattr(ctx.repo, "normalised", {}) if ctx.repo else {},
+        "unresolved_roles": getattr(ctx.repo, "unresolved", {}) if ctx.repo else {},
         "checker_cmd": f"python3-vt /verif/check {ctx.prop} --tier {ctx.tier}",
         "trusted_base": ["CPython ast module", "sa/models.py third-party model table (numpy, scipy, mtscomp, pathlib, joblib)",
                          "the rule tables in rules/%s.py" % ctx.prop],
